@@ -502,6 +502,130 @@ fn extra_step(client: &AnyClient, plan: &Plan, rt: &tokio::runtime::Runtime, log
     done
 }
 
+// ---------------------------------------------------------------------------
+// spec -> impl: ClientMux behaviours (MC_ClientMuxGen, TLC simulation mode) single-stepped on the real clients
+// through the probes cm_allocated:<id>, cm_registered:<id>, cm_written:<id> (callers) and cm_reader_read (reader).
+
+fn replay_one(kind: Kind, beh: &Value, rt: &tokio::runtime::Runtime) -> Result<u64, String> {
+    use repe::verif;
+    let steps = beh["steps"].as_array().ok_or("steps")?;
+    let ncallers = beh["results"].as_array().map(|a| a.len()).unwrap_or(0) as u64;
+    verif::release_all();
+    verif::gate("cm_reader_read");
+    for id in 1..=ncallers + 1 {
+        verif::gate(&format!("cm_allocated:{id}"));
+        verif::gate(&format!("cm_registered:{id}"));
+        verif::gate(&format!("cm_written:{id}"));
+    }
+    let listener = TcpListener::bind("127.0.0.1:0").unwrap();
+    let addr = listener.local_addr().unwrap();
+    let acc = std::thread::spawn(move || Srv::accept(&listener, kind));
+    let client = match kind {
+        Kind::Sync => Client::connect(addr).map(AnyClient::Sync),
+        Kind::Async => rt.block_on(AsyncClient::connect(addr)).map(AnyClient::Async),
+        Kind::Ws => rt.block_on(WebSocketClient::connect(&format!("ws://{addr}"))).map(AnyClient::Ws),
+    }.map_err(|e| format!("connect: {e}"))?;
+    let mut srv = acc.join().map_err(|_| "accept")?;
+    let wait = Duration::from_secs(5);
+    let mut next_id = 1u64;
+    let mut id_of: std::collections::HashMap<u64, u64> = Default::default();
+    let mut rx_of: std::collections::HashMap<u64, std::sync::mpsc::Receiver<(String, u64, u64, String)>> = Default::default();
+    let mut executed = 0u64;
+    let finish = |client: AnyClient, e: Result<u64, String>| -> Result<u64, String> {
+        verif::release_all();
+        drop(client);
+        e
+    };
+    for (i, st) in steps.iter().enumerate() {
+        let (label, x, want_pending) = (st[0].as_str().unwrap_or(""), st[1].as_u64().unwrap_or(0), st[2].as_u64().unwrap_or(0) as usize);
+        let fail = |m: String| -> String { format!("step {i} {label}({x}): {m}") };
+        match label {
+            "Alloc" => {
+                let id = next_id; next_id += 1;
+                id_of.insert(x, id);
+                let (tx, rx) = std::sync::mpsc::channel();
+                let (path, body) = (format!("/c{x}"), json!({"c": x}));
+                match &client {
+                    AnyClient::Sync(c) => { let c = c.clone(); std::thread::spawn(move || { let _ = tx.send(classify(c.call_json(&path, &body))); }); }
+                    AnyClient::Async(c) => { let c = c.clone(); rt.spawn(async move { let _ = tx.send(classify(c.call_json(&path, &body).await)); }); }
+                    AnyClient::Ws(c) => { let c = c.clone(); rt.spawn(async move { let _ = tx.send(classify(c.call_json(&path, &body).await)); }); }
+                }
+                rx_of.insert(x, rx);
+                if !verif::await_parked(&format!("cm_allocated:{id}"), 1, wait) { return finish(client, Err(fail(format!("the caller did not stop after allocating request id {id} (ids must be issued in allocation order)")))); }
+            }
+            "Register" => {
+                let id = id_of[&x];
+                verif::release(&format!("cm_allocated:{id}"));
+                if !verif::await_parked(&format!("cm_registered:{id}"), 1, wait) { return finish(client, Err(fail("the caller did not reach the point after registering".into()))); }
+            }
+            "Write" => {
+                let id = id_of[&x];
+                verif::release(&format!("cm_registered:{id}"));
+                if !verif::await_parked(&format!("cm_written:{id}"), 1, wait) { return finish(client, Err(fail("the caller did not finish writing its request".into()))); }
+                verif::release(&format!("cm_written:{id}"));
+            }
+            "SrvRead" => match srv.read_req(wait) {
+                Some((id, _)) if id == x => {}
+                other => return finish(client, Err(fail(format!("the server read {other:?}, the specification's wire has request id {x} first")))),
+            },
+            "SrvReply" => { srv.send(&resp_frame(x, x)); }
+            "SrvJunk" => { if x == 0 { srv.send(&resp_frame(777_000 + i as u64, 99)); } else { srv.send(&resp_frame(x, 99)); } }
+            "Recv" => { if !verif::await_parked("cm_reader_read", 1, wait) { return finish(client, Err(fail("the reader did not take the next frame".into()))); } }
+            "Dispatch" => {
+                let before = verif::passed("cm_reader_read");
+                verif::step("cm_reader_read");
+                let t0 = Instant::now();
+                while verif::passed("cm_reader_read") == before { if t0.elapsed() > wait { return finish(client, Err(fail("the reader did not leave the probe".into()))); } std::thread::sleep(Duration::from_micros(100)); }
+            }
+            "Take" => {
+                let got = rx_of.remove(&x).and_then(|rx| rx.recv_timeout(wait).ok());
+                let want = &beh["results"][(x - 1) as usize];
+                match got {
+                    Some((cls, rid, rtag, msg)) => {
+                        if json!([cls, rid, rtag]) != *want { return finish(client, Err(fail(format!("caller {x} returned ({cls}, id {rid}, tag {rtag}; {msg}), the specification says {want}")))); }
+                    }
+                    None => return finish(client, Err(fail(format!("caller {x} did not return although its response was dispatched")))),
+                }
+            }
+            other => return finish(client, Err(fail(format!("unknown label {other}")))),
+        }
+        // the abstract state after the step: size of the pending map (poll briefly: Dispatch / Take complete asynchronously)
+        let t0 = Instant::now();
+        loop {
+            let p = client.pending_len();
+            if p == want_pending { break; }
+            if t0.elapsed() > Duration::from_secs(2) { return finish(client, Err(fail(format!("pending map holds {p} entries, the specification {want_pending}")))); }
+            std::thread::sleep(Duration::from_micros(200));
+        }
+        executed += 1;
+    }
+    finish(client, Ok(executed))
+}
+
+pub fn replay(a: &Args) -> i32 {
+    let kind = match a.str("client", "sync").as_str() { "sync" => Kind::Sync, "async" => Kind::Async, _ => Kind::Ws };
+    let rt = tokio::runtime::Builder::new_multi_thread().worker_threads(4).enable_all().build().unwrap();
+    let behs = util::tlc_tagged_json(&a.req("behaviours"), "BEH");
+    let mut seen = std::collections::HashSet::new();
+    let (mut n, mut steps) = (0u64, 0u64);
+    let mut failures: Vec<Value> = vec![];
+    repe::verif::enable(true);
+    for b in &behs {
+        if !seen.insert(b["steps"].to_string()) { continue; }
+        if n >= a.u64("max", 1_000_000) { break; }
+        n += 1;
+        match replay_one(kind, b, &rt) {
+            Ok(k) => steps += k,
+            Err(e) => { if failures.len() < 10 { failures.push(json!({"client": kind.name(), "what": e, "behaviour": b})); } if failures.len() >= 3 { break; } }
+        }
+    }
+    repe::verif::release_all();
+    repe::verif::enable(false);
+    util::write_json(&a.req("out"), &json!({"client": kind.name(), "behaviours": n, "steps": steps, "failures": failures}));
+    rt.shutdown_timeout(Duration::from_secs(2));
+    0
+}
+
 fn permutations(n: usize) -> Vec<Vec<usize>> {
     fn rec(cur: &mut Vec<usize>, used: &mut Vec<bool>, n: usize, out: &mut Vec<Vec<usize>>) {
         if cur.len() == n { out.push(cur.clone()); return; }
